@@ -128,6 +128,21 @@ class MaxDepthValidationRule:
                 # variable): the request cannot be executed either and is
                 # refused by the standard rules or by variable coercion.
                 continue
+            except RecursionError:
+                # Nested (through fragments) beyond what can even be
+                # measured: certainly deeper than any sensible limit.
+                errors.append(
+                    ValidationError(
+                        'Operation "%s" is nested too deeply to be measured, '
+                        "it exceeds maximum depth (%s)"
+                        % (
+                            op.name.value if op.name else "<ANONYMOUS>",
+                            self.max_depth,
+                        ),
+                        nodes=[op],
+                    ),
+                )
+                continue
 
             if depth > self.max_depth:
                 errors.append(
